@@ -751,6 +751,20 @@ func genCase(t *rapid.T) Case {
 	if len(c.Msgs) < 60 && rapid.Bool().Draw(t, "hostileTail") {
 		addHostile(4)
 	}
+	// ---- the documented exceptions (RTMP path): a counted class of their own ------------------
+	if c.Path == "rtmp" && len(c.Msgs) > 0 {
+		if rapid.IntRange(0, 9).Draw(t, "docIgnored") == 0 {
+			// a data message named |RtmpSampleAccess is ignored by the session (never reaches the stream)
+			at := rapid.IntRange(0, len(c.Msgs)).Draw(t, "docIgnoredAt")
+			m := Msg{Type: gen.TypeData, Ts: cur, Class: "doc-ignored/RtmpSampleAccess", Raw: append(amfStr("|RtmpSampleAccess"), 1, 1, 1, 1)}
+			c.Msgs = append(c.Msgs[:at], append([]Msg{m}, c.Msgs[at:]...)...)
+		}
+		if rapid.IntRange(0, 14).Draw(t, "docClose") == 0 {
+			// a data message whose first AMF value is not a (complete) string closes the publisher: always the last one
+			raw := rapid.SampledFrom([][]byte{{}, {0}, {0, 0x40, 0, 0, 0, 0, 0, 0, 0}, {2, 0, 9, 'o', 'n'}, {8, 0, 0, 0, 0}, {5}, {12, 0, 0}}).Draw(t, "docCloseRaw")
+			c.Msgs = append(c.Msgs, Msg{Type: gen.TypeData, Ts: cur, Class: "doc-close/data-without-leading-string", Raw: raw})
+		}
+	}
 
 	// ---- subscribers -----------------------------------------------------------------
 	var kinds []string
